@@ -707,6 +707,7 @@ Lemma nm_ok_step v s o : nm_ok s -> nm_ok (fst (step_v v s o)).
 Proof.
   intros Hnm. destruct o; cbn [step_v].
   - destruct (existsb _ _); exact Hnm.
+  - destruct (eqb_eaddr e [0%N]); exact Hnm.
   - destruct (find _ (lents s)) as [le|]; [|exact Hnm]. cbn [fst].
     destruct (existsb _ (lfeats s)); [exact Hnm|].
     destruct Hnm as [lf [Hf Hk]]. exists lf. split; [|exact Hk]. cbn [lfeats]. apply find_app_first. exact Hf.
@@ -748,6 +749,7 @@ Proof.
   intros Hnm. unfold mon. cbn [w].
   destruct o; cbn [snd]; try (unfold step; cbn [step_v]).
   - destruct (existsb _ (lents s)); reflexivity.
+  - destruct (eqb_eaddr e [0%N]); reflexivity.
   - destruct (find _ (lents s)); reflexivity.
   - reflexivity.
   - destruct (find_lfeat s e (Some f)); [destruct (fn_registered _ _)|]; reflexivity.
